@@ -59,7 +59,8 @@ ObsModel(s, m) ==
 ObsFile(s, f) ==
   LET m == s.f[f].m IN
   [name |-> s.f[f].name, ver |-> s.f[f].ver, m |-> m,
-   dfs |-> FileDfs(s, s.root[m], f, 0, 0), dfs1 |-> FileDfs(s, s.root[m], f, 0, 1)]
+   dfs |-> FileDfs(s, s.root[m], f, 0, 0), dfs1 |-> FileDfs(s, s.root[m], f, 0, 1), dfs2 |-> FileDfs(s, s.root[m], f, 0, 2),
+   dfs3 |-> FileDfs(s, s.root[m], f, 0, 3)]
 
 SpecObs(s) == [n |-> [i \in 1..Len(s.n) |-> ObsNode(s, i)],
                models |-> [m \in 1..Len(s.root) |-> ObsModel(s, m)],
